@@ -141,6 +141,24 @@ def builders(model):
     B['ProductSpaceOperator[[P2, P3], [0, P2]]'] = lambda I: inst(
         I, 'ProductSpaceOperator', [[pw(I), pw(I, 'const', 3)],
                                     [0, pw(I)]])
+    # affine shifts of operators whose out-of-place result is (a view of)
+    # their input
+    CX = lambda: NSpace((2,), 'complex128', Rat.var('w'))
+    RX = lambda: NSpace((2,), 'float64', Rat.var('w'))
+    B['expr:RealPart[R] + vector'] = lambda I: I.binop(
+        ast.Add, inst(I, 'RealPart', X()), sym_elem(X(), 'v'))
+    B['expr:RealPart[C] + vector'] = lambda I: I.binop(
+        ast.Add, inst(I, 'RealPart', CX()), sym_elem(RX(), 'v'))
+    B['expr:ImagPart[C] + vector'] = lambda I: I.binop(
+        ast.Add, inst(I, 'ImagPart', CX()), sym_elem(RX(), 'v'))
+    def flat_shift(I):
+        op = inst(I, 'FlatteningOperator', NSpace((2, 3), 'float64',
+                                                  Rat.var('w')))
+        return I.binop(ast.Add, op, sym_elem(I.getattr_value(op, 'range'),
+                                             'v'))
+    B['expr:FlatteningOperator + vector'] = flat_shift
+    B['expr:IdentityOperator + vector'] = lambda I: I.binop(
+        ast.Add, inst(I, 'IdentityOperator', X()), sym_elem(X(), 'v'))
     # compositions that were given a temporary for the inner result
     for t, mk in (('Power2', lambda I: pw(I)),
                   ('Norm', lambda I: inst(I, 'NormOperator', X()))):
